@@ -50,6 +50,7 @@ type vfC11clEnd struct {
 	p   *vfC11clPipe
 	i   int
 	rdl time.Time
+	wdl time.Time
 
 	conn  *vfC11clConn
 	scope network.StreamManagementScope
@@ -188,8 +189,23 @@ func (e *vfC11clEnd) SetReadDeadline(t time.Time) error {
 	}
 	return nil
 }
-func (e *vfC11clEnd) SetWriteDeadline(time.Time) error { return nil } // writes never block
-func (e *vfC11clEnd) SetDeadline(t time.Time) error    { return e.SetReadDeadline(t) }
+func (e *vfC11clEnd) SetWriteDeadline(t time.Time) error { // writes never block; the deadline is only remembered
+	e.p.mu.Lock()
+	e.wdl = t
+	e.p.mu.Unlock()
+	return nil
+}
+func (e *vfC11clEnd) SetDeadline(t time.Time) error {
+	e.SetWriteDeadline(t)
+	return e.SetReadDeadline(t)
+}
+
+// deadlines: the read / write deadlines now set on this end
+func (e *vfC11clEnd) deadlines() (time.Time, time.Time) {
+	e.p.mu.Lock()
+	defer e.p.mu.Unlock()
+	return e.rdl, e.wdl
+}
 func (e *vfC11clEnd) ID() string                       { return e.id }
 func (e *vfC11clEnd) Protocol() protocol.ID            { return e.proto }
 func (e *vfC11clEnd) SetProtocol(p protocol.ID) error  { e.proto = p; return nil }
